@@ -701,6 +701,10 @@ def judge(ctx, label, W, evaluator, err_cls, text, env, entry, call,
                     f'{err_cls.__name__}', desc)
         ctx.evaluated((label, text, entry),
                       nontrivial=nnodes >= 3 and below)
+        if below and nnodes >= 6 and sum(
+                1 for x in ctx.samples if x.get('rejected')) < 2:
+            ctx.sample({**desc, 'rejected': sorted({b[0] for b in bad})},
+                       force=len(ctx.samples) < 6)
         return
     # --- fully whitelisted --------------------------------------------------
     ctx.count('expect_accept')
